@@ -367,7 +367,10 @@ func (e *SpecEnv) loadGlobal(p *types.Package, o *types.Var) SV {
 	if !ok {
 		e.fail("no global %s", o.Name())
 	}
-	return SV{t: e.fc.load(e.cur, e.fc.globalAddr(g), o.Type()), typ: o.Type()}
+	t := e.fc.load(e.cur, e.fc.globalAddr(g), o.Type())
+	// typing invariant of the loaded global (ground fact, e.g. io.EOF is older than anything allocated later)
+	e.fc.assume("true", e.fc.tc.wf(t, o.Type(), e.fc.watermark(e.cur)))
+	return SV{t: t, typ: o.Type()}
 }
 
 func derefStruct(t types.Type) (types.Type, bool) {
@@ -698,6 +701,9 @@ func (e *SpecEnv) evalCall(x *ECall) SV {
 				p := v.t
 				if _, ok := types.Unalias(v.typ).Underlying().(*types.Slice); ok {
 					p = sarr(v.t)
+				}
+				if _, ok := types.Unalias(v.typ).Underlying().(*types.Interface); ok {
+					p = app("iptr", v.t)
 				}
 				old := e.old
 				if old == nil {
